@@ -41,6 +41,8 @@ def check(index, ctx):
             jac_ag = [e for e in ag if atoms_of_desc(e["outputs"]) == ["features"]]
             other = [e for e in ag if e not in task_ag and e not in jac_ag]
             agg = _pipe.evs(res, "aggregator_call")
+            for _b in _pipe.evs(res, "aggregator_bypass"):
+                ctx.violated("R1", f"{_layout.short_fn(_b)}: aggregator applied through forward()", "the aggregator's forward() is called directly instead of aggregator(matrix): hooks registered on the aggregator (nn.Module.__call__) are skipped, so what is deposited is not aggregator(J)", _b["loc"])
             gw = _pipe.evs(res, "grad_write")
             gw_task = [e for e in gw if e["target"] == [ta]]
             gw_sh = [e for e in gw if e["target"] == [sa]]
